@@ -61,7 +61,7 @@ func childMain() {
 		if err := json.Unmarshal(req, &sp); err != nil {
 			return map[string]string{"err": "bad request: " + err.Error()}
 		}
-		if err := f1util.RunBuild(sp); err != nil {
+		if err := f1util.WithFsizeLimit(sp.FsizeLimit, func() error { return f1util.RunBuild(sp) }); err != nil {
 			return map[string]string{"err": err.Error()}
 		}
 		return map[string]string{"err": ""}
@@ -315,6 +315,15 @@ type caseSpec struct {
 	// rename, i.e. after it had written all its temp files: 1 = its temp files are left behind complete, 2 = they are
 	// left behind cut short (what a kill in the middle of writing them leaves)
 	PriorKill int
+	// Meta: the run under test is the metadata-only update (mergeMeta of cmd/zoekt-sourcegraph-indexserver, through its
+	// verif driver) instead of a build: it merges a new RawConfig priority into every shard's sidecar
+	Meta bool
+	// FsizeLimit > 0 (mode wfault): the run executes under RLIMIT_FSIZE: a write that would grow a file beyond it fails
+	FsizeLimit uint64
+	// WriteKillAt > 0 (mode wkill): a fresh child is SIGKILLed on entering its WriteKillAt-th write(2)
+	WriteKillAt int
+	// Pad: number of long removed paths reported to a delta run, which makes its sidecars larger than its shards
+	Pad int
 }
 
 type scenario struct {
@@ -327,6 +336,7 @@ type scenario struct {
 	newSet   map[string]int
 	idCache  map[string]string
 	leftover map[string]string // *.tmp files a killed earlier run left behind: name -> sha256
+	metaPrio float64           // Meta: the priority the update merges into the metadata (old: 0)
 }
 
 func docKey(name, content, version string) string { return name + "\x00" + content + "\x00" + version }
@@ -339,8 +349,15 @@ func mkScenario(cs caseSpec, tpls map[string]*template, dir string, g int) *scen
 	r := gen.NewRand(cs.Seed)
 	sc := &scenario{cs: cs, tpl: t, idCache: map[string]string{}}
 	sc.spec = f1util.BuildSpec{Dir: dir, RepoName: repoName, RepoID: repoID, Gen: g, Delta: cs.Delta, ShardMerging: cs.ShardMerging, ShardMax: shardMax}
-	if cs.Delta {
+	if cs.Meta {
+		sc.cs.Delta, cs.Delta = true, true // in the model a metadata-only update is a delta run that writes no shard
+		sc.spec.Delta = true
+		sc.metaPrio = float64(g)
+	} else if cs.Delta {
 		sc.spec.Docs, sc.spec.Changed = deltaDocs(r, t.Docs, g, cs.NShards, cs.Changed)
+		for i := 0; i < cs.Pad; i++ {
+			sc.spec.Changed = append(sc.spec.Changed, fmt.Sprintf("removed/long/path/number/%04d/of/a/file/that/is/gone/now.go", i))
+		}
 	} else {
 		n := cs.NShards
 		if n < 1 {
@@ -363,6 +380,11 @@ func mkScenario(cs caseSpec, tpls map[string]*template, dir string, g int) *scen
 	sc.newSet = map[string]int{}
 	for n, c := range vis {
 		sc.newSet[docKey(n, c, f1util.Version(g))]++
+	}
+	if cs.Meta {
+		sc.nNew = 0
+		sc.newParts = nil
+		sc.newSet = sc.oldSet // documents and branch versions do not change
 	}
 	return sc
 }
@@ -467,6 +489,12 @@ func (sc *scenario) identifySidecar(path string) string {
 	}
 	var one zoekt.Repository
 	if err := json.Unmarshal(b, &one); err == nil && one.Name != "" {
+		if sc.cs.Meta {
+			if one.ID == repoID && one.RawConfig["priority"] == strconv.Itoa(int(sc.metaPrio)) {
+				return "nm"
+			}
+			return "xx"
+		}
 		if len(one.Branches) == 1 && one.Branches[0].Version == f1util.Version(sc.spec.Gen) && one.ID == repoID {
 			// the run's sidecar must tombstone exactly the changed paths (on top of earlier tombstones)
 			for _, c := range sc.spec.Changed {
@@ -620,9 +648,14 @@ func (sc *scenario) view(dir string) (string, string) {
 		return "mix", "Search: " + err.Error()
 	}
 	got := map[string]int{}
+	prios := map[float64]int{} // FileMatch.RepositoryPriority comes from the (sidecar-first) metadata of the file's shard
+	others := 0
 	for _, fm := range res.Files {
 		if fm.Repository == repoName {
 			got[docKey(fm.FileName, string(fm.Content), fm.Version)]++
+			prios[fm.RepositoryPriority]++
+		} else {
+			others++
 		}
 	}
 	rl, err := ss.List(ctx, &query.Const{Value: true}, nil)
@@ -630,11 +663,14 @@ func (sc *scenario) view(dir string) (string, string) {
 		return "mix", "List: " + err.Error()
 	}
 	versions := map[string]int{}
+	listPrio := map[float64]int{}
 	for _, e := range rl.Repos {
 		if e.Repository.Name == repoName {
 			for _, b := range e.Repository.Branches {
 				versions[b.Version]++
 			}
+			p, _ := strconv.ParseFloat(e.Repository.RawConfig["priority"], 64)
+			listPrio[p]++
 		}
 	}
 	same := func(a, b map[string]int) bool {
@@ -658,6 +694,28 @@ func (sc *scenario) view(dir string) (string, string) {
 	}
 	oldHas := sc.tpl.NOld > 0 || sc.tpl.Compound
 	newHas := sc.nNew > 0 || (sc.cs.Delta && sc.tpl.NOld > 0)
+	if sc.cs.Meta {
+		// a metadata-only update: documents and versions stay, every file is served with the old (0) or the new priority
+		if sc.tpl.Compound && others == 0 {
+			return "mix", "missing: the other repository of the compound shard is gone too"
+		}
+		if len(sc.oldSet) == 0 {
+			prios = listPrio // no searchable file to carry the priority: the listing still shows the metadata
+		}
+		if same(got, sc.oldSet) && onlyVersion(sc.tpl.Gen, oldHas) && len(prios) == 1 {
+			if prios[sc.metaPrio] > 0 {
+				return "new", ""
+			}
+			if prios[0] > 0 {
+				return "old", ""
+			}
+		}
+		why := fmt.Sprintf("searcher sees %d file(s) with priorities %v, listed versions %v; the index has %d file(s), old priority 0, new priority %v", len(got), prios, versions, len(sc.oldSet), sc.metaPrio)
+		if len(got) == 0 && len(sc.oldSet) > 0 {
+			return "mix", "missing: " + why
+		}
+		return "mix", why
+	}
 	if same(got, sc.newSet) && onlyVersion(sc.spec.Gen, newHas) {
 		return "new", ""
 	}
@@ -674,8 +732,9 @@ func (sc *scenario) view(dir string) (string, string) {
 // ---------------------------------------------------------------- from observed operations to the model's input
 
 type observed struct {
-	ops   []f1util.FsOp // mutations inside the scenario directory, rmdir folded away
-	temps map[string]int
+	ops     []f1util.FsOp // mutations inside the scenario directory, rmdir folded away
+	temps   map[string]int
+	inPlace []string // visible (non-temporary) files the run opened with O_CREAT/O_TRUNC
 }
 
 func (sc *scenario) filterOps(all []f1util.FsOp) observed {
@@ -689,6 +748,8 @@ func (sc *scenario) filterOps(all []f1util.FsOp) observed {
 		case "create":
 			b := filepath.Base(op.Src)
 			if !strings.HasSuffix(b, ".tmp") {
+				// a file with a visible name opened for writing in place: never part of a temp-then-rename protocol
+				o.inPlace = append(o.inPlace, b)
 				continue
 			}
 			if _, ok := o.temps[b]; !ok {
@@ -696,6 +757,10 @@ func (sc *scenario) filterOps(all []f1util.FsOp) observed {
 			}
 		case "rmdir":
 			continue // os.Remove's second attempt after a failed unlink
+		case "remove":
+			if !op.OK && !op.Inj && op.Err == "ENOENT" && strings.HasSuffix(op.Src, ".tmp") {
+				continue // best-effort cleanup of a temp file that has already been renamed away: a no-op
+			}
 		}
 		o.ops = append(o.ops, op)
 	}
@@ -857,6 +922,68 @@ type runner struct {
 	worker  int
 	stop    *f1util.Session
 	fault   *f1util.Session
+	ixsBin  string                     // cmd/zoekt-sourcegraph-indexserver built with -tags verif (mergeMeta driver)
+	sess    map[string]*f1util.Session // long-lived children of this worker, by kind
+}
+
+// session returns this worker's long-lived child of the given kind, starting it on first use:
+// stop/fault/trace run the harness's own builder child, mstop/mtrace the indexserver's mergeMeta driver.
+func (rn *runner) session(kind string) *f1util.Session {
+	if s := rn.sess[kind]; s != nil {
+		return s
+	}
+	mode := f1util.Mode{}
+	switch kind {
+	case "stop", "mstop":
+		mode.StopAtMutations = true
+	case "fault":
+		mode.RenameFail, mode.UnlinkFail = "2+3", "2+5"
+	}
+	bin, args, env := rn.self, []string{"child"}, []string(nil)
+	if strings.HasPrefix(kind, "m") {
+		bin, args, env = rn.ixsBin, nil, []string{"ZOEKT_VERIF_DRIVER=c12"}
+	}
+	s, err := f1util.Start(mode, filepath.Join(rn.root, fmt.Sprintf("%s%d.log", kind, rn.worker)), env, bin, args...)
+	must(err)
+	if rn.sess == nil {
+		rn.sess = map[string]*f1util.Session{}
+	}
+	rn.sess[kind] = s
+	return s
+}
+
+// request: the line sent to the child for the run under test
+func (sc *scenario) request() string {
+	if sc.cs.Meta {
+		b, _ := json.Marshal(map[string]any{"Dir": sc.spec.Dir, "RepoName": repoName, "RepoID": repoID,
+			"Version": f1util.Version(sc.tpl.Gen), "RawConfig": map[string]string{"priority": strconv.Itoa(int(sc.metaPrio))},
+			"FsizeLimit": sc.spec.FsizeLimit})
+		return string(b)
+	}
+	b, _ := json.Marshal(sc.spec)
+	return string(b)
+}
+
+// modelled: does the Lean model cover the scenario?  (a metadata-only update of a compound shard is a "delta run on a
+// compound shard", which the model of Finish excludes: those runs are judged by the Go oracle alone)
+func (sc *scenario) modelled() bool { return !(sc.cs.Meta && sc.tpl.Compound) }
+
+// emitObs: an observation that is outside the model's traces (kill inside a file write, failing write, update of a
+// compound shard's sidecar): the property is evaluated on it by checkP (driver op `obs`) and by the Go oracle.
+func (rn *runner) emitObs(sc *scenario, o observed, dir string, isEnd bool, res string, faulted bool, class string, k int) {
+	lst, problem := sc.listing(dir, o.temps, filepath.Join(rn.root, fmt.Sprintf("scratch%d", rn.worker)))
+	view, why := sc.view(dir)
+	c := gen.Case{Class: class + ":" + sc.descr(), Nontrivial: true}
+	if sc.modelled() {
+		c.In = fmt.Sprintf("obs %s %s %s %s %d %s %s %s %s %s %s", b01(sc.cs.Delta), b01(sc.tpl.Compound), b01(sc.tpl.CompMeta),
+			b01(sc.cs.ShardMerging), sc.nNew, bits(sc.tpl.OldMeta), b01(isEnd), b01(res == "ok"), b01(faulted), lst, view)
+		c.Impl = "obs"
+	}
+	cs := sc.cs
+	c.Detail = gen.Detail(map[string]any{"spec": cs, "k": k, "why": why, "res": res, "dir": lst, "ops": o.opsString(-1)})
+	c.Go, c.Key = sc.oracle(o, lst, problem, view, why, isEnd, res, faulted)
+	rn.w.Emit(c)
+	rn.w.Count("view:"+view, 1)
 }
 
 func (rn *runner) freshDir() string {
@@ -883,25 +1010,44 @@ func (rn *runner) emit(sc *scenario, o observed, dir string, k int, isEnd bool, 
 	cs := sc.cs
 	cs.Mode = mode
 	c.Detail = gen.Detail(map[string]any{"spec": cs, "k": kk, "why": why, "changed": sc.spec.Changed, "ndocs": len(sc.spec.Docs)})
+	c.Go, c.Key = sc.oracle(o, lst, problem, view, why, isEnd, res, faulted)
+	c.Nontrivial = !isEnd && k > 0 || faulted
+	rn.w.Emit(c)
+	rn.w.Count("view:"+view, 1)
+}
+
+// oracle: the Go-side verdict on one observation ("" = fine) and its failure class.  Order matters: an unloadable or
+// truncated visible file and a false success are reported under their own keys, never as an old/new mixture.
+func (sc *scenario) oracle(o observed, lst, problem, view, why string, isEnd bool, res string, faulted bool) (string, string) {
 	at := "nonatomic:"
 	if sc.atomic() {
 		at = "atomic:"
 	}
+	trunc := ""
+	for _, e := range strings.Split(lst, ";") {
+		if !strings.HasPrefix(e, "t") && (strings.HasSuffix(e, "=pt") || strings.HasSuffix(e, "=xx")) {
+			trunc = e
+		}
+	}
 	switch {
 	case problem != "":
-		c.Go, c.Key = problem, "unexpected-file:"+sc.descr()
+		return problem, "unexpected-file:" + sc.descr()
+	case len(o.inPlace) > 0:
+		return "the run wrote the visible file " + o.inPlace[0] + " in place (no temp file + rename)", "in-place-write:" + sc.descr()
+	case trunc != "":
+		return "a visible file is truncated or unreadable: " + trunc, "truncated:" + sc.descr()
 	case isEnd && res == "ok" && view != "new":
-		c.Go, c.Key = "Finish returned nil but the searcher does not see the new index: "+why, "false-success:"+sc.descr()
+		return "the run returned nil but the searcher does not see the new index: " + why, "false-success:" + sc.descr()
+	case isEnd && res == "err" && !faulted && view != "old" && view != "new":
+		return "the run failed and left neither the old nor the new index: " + why, "fault-mix:" + at + sc.descr()
 	case view == "mix" && strings.HasPrefix(why, "missing"):
-		c.Go, c.Key = why, "missing:"+sc.descr()
+		return why, "missing:" + sc.descr()
 	case view == "mix" && isEnd && faulted:
-		c.Go, c.Key = why, "fault-mix:"+at+sc.descr()
+		return why, "fault-mix:" + at + sc.descr()
 	case view == "mix":
-		c.Go, c.Key = why, "crash-mix:"+at+sc.descr()
+		return why, "crash-mix:" + at + sc.descr()
 	}
-	c.Nontrivial = !isEnd && k > 0 || faulted
-	rn.w.Emit(c)
-	rn.w.Count("view:"+view, 1)
+	return "", ""
 }
 
 func errOf(reply string) string {
@@ -966,10 +1112,14 @@ func (rn *runner) prepare(cs caseSpec, dir string) *scenario {
 func (rn *runner) runStop(cs caseSpec) {
 	dir := rn.freshDir()
 	sc := rn.prepare(cs, dir)
-	req, _ := json.Marshal(sc.spec)
+	kind := "stop"
+	if cs.Meta {
+		kind = "mstop"
+		rn.w.Count("metadata-only-updates", 1)
+	}
 	var snaps []string
 	var snapOps [][]f1util.FsOp
-	reply, ops, died, err := rn.stop.Do(string(req), func(sofar []f1util.FsOp) {
+	reply, ops, died, err := rn.session(kind).Do(sc.request(), func(sofar []f1util.FsOp) {
 		s := fmt.Sprintf("%s.snap%d", dir, len(snaps))
 		copyDir(dir, s)
 		snaps = append(snaps, s)
@@ -988,10 +1138,118 @@ func (rn *runner) runStop(cs caseSpec) {
 				k++
 			}
 		}
-		rn.emitPrefix(sc, o, oi, s, k)
+		if sc.modelled() {
+			rn.emitPrefix(sc, o, oi, s, k)
+		} else {
+			rn.emitObs(sc, oi, s, false, "-", false, "crash", k)
+			rn.w.Count("crash-points", 1)
+		}
 		os.RemoveAll(s)
 	}
-	rn.emit(sc, o, dir, 0, true, errOf(reply), false, "stop")
+	if sc.modelled() {
+		rn.emit(sc, o, dir, 0, true, errOf(reply), false, "stop")
+	} else {
+		rn.emitObs(sc, o, dir, true, errOf(reply), false, "stop", 0)
+	}
+	os.RemoveAll(dir)
+}
+
+// runWFault: the run executes under a file-size limit (RLIMIT_FSIZE in the child): the write that would grow a file
+// beyond it fails with EFBIG after a partial write — shard temp files, sidecar temp files, whatever the limit hits.
+func (rn *runner) runWFault(cs caseSpec) {
+	dir := rn.freshDir()
+	sc := rn.prepare(cs, dir)
+	sc.spec.FsizeLimit = cs.FsizeLimit
+	kind := "trace"
+	if cs.Meta {
+		kind = "mtrace"
+		rn.w.Count("metadata-only-updates", 1)
+	}
+	reply, ops, died, err := rn.session(kind).Do(sc.request(), nil)
+	if err != nil || died {
+		panic(fmt.Sprintf("%s session broke: %v died=%v", kind, err, died))
+	}
+	o := sc.filterOps(ops)
+	res := errOf(reply)
+	renames := 0
+	for _, op := range o.ops {
+		if op.Kind == "rename" {
+			renames++
+		}
+	}
+	switch {
+	case res == "ok" && sc.modelled():
+		// the limit was not reached (or the failure went unnoticed): an ordinary complete run
+		rn.w.Count("write-fault:not-hit", 1)
+		rn.emit(sc, o, dir, 0, true, res, false, "wfault")
+	case res == "err" && renames == 0 && !cs.Meta && len(o.temps) > 0:
+		// a temp-file write failed before anything was installed: the model's writeFailOps
+		j := len(o.temps) - 1
+		if j < sc.nNew {
+			rn.w.Count("write-fault:shard-temp", 1)
+		} else {
+			rn.w.Count("write-fault:sidecar-temp", 1)
+		}
+		var creates, removes []string
+		for _, op := range o.ops {
+			tok := pathToken(filepath.Base(op.Src), o.temps)
+			if op.Kind == "create" {
+				creates = append(creates, "c:"+tok)
+			} else if op.Kind == "remove" {
+				mark := "+"
+				if !op.OK {
+					mark = "!"
+				}
+				removes = append(removes, "u:"+tok+mark)
+			}
+		}
+		sort.Slice(removes, func(a, b int) bool { // Finish removes its temp files in map order
+			x, _ := strconv.Atoi(strings.Trim(removes[a], "u:t+!"))
+			y, _ := strconv.Atoi(strings.Trim(removes[b], "u:t+!"))
+			return x < y
+		})
+		lst, problem := sc.listing(dir, o.temps, filepath.Join(rn.root, fmt.Sprintf("scratch%d", rn.worker)))
+		view, why := sc.view(dir)
+		c := gen.Case{
+			In:    fmt.Sprintf("wfail %s %s %s %s %d %s %d %s", b01(sc.cs.Delta), b01(sc.tpl.Compound), b01(sc.tpl.CompMeta), b01(sc.cs.ShardMerging), sc.nNew, bits(sc.tpl.OldMeta), j, view),
+			Impl:  fmt.Sprintf("ops=%s res=%s dir=%s", strings.Join(append(creates, removes...), ","), res, lst),
+			Class: "wfault:" + sc.descr(), Nontrivial: true,
+			Detail: gen.Detail(map[string]any{"spec": cs, "why": why, "j": j}),
+		}
+		c.Go, c.Key = sc.oracle(o, lst, problem, view, why, true, res, true)
+		if c.Go == "" && view != "old" {
+			c.Go, c.Key = "a run that failed before installing anything changed the index: "+why, "write-fault-changed-index:"+sc.descr()
+		}
+		rn.w.Emit(c)
+	default:
+		rn.w.Count("write-fault:other", 1)
+		rn.emitObs(sc, o, dir, true, res, res == "err", "wfault", 0)
+	}
+	os.RemoveAll(dir)
+}
+
+// runWKill: a fresh child is SIGKILLed on entering its k-th write(2): a kill in the middle of writing the temp files
+// (or, in a faulty implementation, the visible files) of a build or of a metadata-only update.
+func (rn *runner) runWKill(cs caseSpec) {
+	dir := rn.freshDir()
+	sc := rn.prepare(cs, dir)
+	bin, args, env := rn.self, []string{"child"}, []string(nil)
+	if cs.Meta {
+		bin, args, env = rn.ixsBin, nil, []string{"ZOEKT_VERIF_DRIVER=c12"}
+		rn.w.Count("metadata-only-updates", 1)
+	}
+	s, err := f1util.Start(f1util.Mode{WriteKillAt: cs.WriteKillAt}, filepath.Join(rn.root, fmt.Sprintf("wkill%04d.log", rn.nextDir)), env, bin, args...)
+	must(err)
+	reply, ops, died, err := s.Do(sc.request(), nil)
+	must(err)
+	s.Close()
+	o := sc.filterOps(ops)
+	if died {
+		rn.w.Count("kills-inside-writes", 1)
+		rn.emitObs(sc, o, dir, false, "-", false, "wkill", cs.WriteKillAt)
+	} else {
+		rn.emitObs(sc, o, dir, true, errOf(reply), false, "wkill-survived", cs.WriteKillAt)
+	}
 	os.RemoveAll(dir)
 }
 
@@ -1007,18 +1265,7 @@ func (rn *runner) emitPrefix(sc *scenario, all, pre observed, dir string, k int)
 	cs := sc.cs
 	cs.Mode = "stop"
 	c.Detail = gen.Detail(map[string]any{"spec": cs, "k": k, "why": why, "changed": sc.spec.Changed, "ndocs": len(sc.spec.Docs)})
-	at := "nonatomic:"
-	if sc.atomic() {
-		at = "atomic:"
-	}
-	switch {
-	case problem != "":
-		c.Go, c.Key = problem, "unexpected-file:"+sc.descr()
-	case view == "mix" && strings.HasPrefix(why, "missing"):
-		c.Go, c.Key = why, "missing:"+sc.descr()
-	case view == "mix":
-		c.Go, c.Key = why, "crash-mix:"+at+sc.descr()
-	}
+	c.Go, c.Key = sc.oracle(pre, lst, problem, view, why, false, "-", false)
 	c.Nontrivial = true
 	rn.w.Emit(c)
 	rn.w.Count("view:"+view, 1)
@@ -1030,7 +1277,7 @@ func (rn *runner) runFault(cs caseSpec) {
 	dir := rn.freshDir()
 	sc := rn.prepare(cs, dir)
 	req, _ := json.Marshal(sc.spec)
-	reply, ops, died, err := rn.fault.Do(string(req), nil)
+	reply, ops, died, err := rn.session("fault").Do(string(req), nil)
 	if err != nil || died {
 		panic(fmt.Sprintf("fault session broke: %v died=%v", err, died))
 	}
@@ -1183,6 +1430,10 @@ func (rn *runner) run(cs caseSpec) {
 	switch cs.Mode {
 	case "buildfail":
 		rn.runBuildFail(cs)
+	case "wfault":
+		rn.runWFault(cs)
+	case "wkill":
+		rn.runWKill(cs)
 	case "rejected":
 		rn.runRejected(cs)
 	case "stop":
@@ -1319,7 +1570,7 @@ func main() {
 			}
 			specs = append(specs, cs)
 		}
-		for i := 0; i < f.N(30, 300); i++ {
+		for i := 0; i < f.N(20, 300); i++ {
 			cs := randomSpec(r, "fault")
 			if i%10 == 3 {
 				cs.PriorKill = 1 + r.Intn(2)
@@ -1330,6 +1581,42 @@ func main() {
 			cs := randomSpec(r, "kill")
 			cs.KillAt = 1 + r.Intn(4)
 			specs = append(specs, cs)
+		}
+		// metadata-only updates (mergeMeta): every crash point at its renames, for every kind of old index
+		metaTpls := []string{"F1", "F1d0", "F2", "F2d1", "C", "Cm", "F3", "F1d1"}
+		for i := 0; i < f.N(6, 40); i++ {
+			specs = append(specs, caseSpec{Mode: "stop", Meta: true, Template: metaTpls[i%len(metaTpls)], Seed: r.U64()})
+		}
+		// failing writes (file-size limit) and kills inside write(2), for builds and for metadata-only updates
+		for i := 0; i < f.N(10, 120); i++ {
+			cs := randomSpec(r, "wfault")
+			cs.FsizeLimit = uint64(200 + r.Intn(2200))
+			if cs.Delta {
+				// sidecars larger than shards, limit usually in between: the sidecar write is the one that fails
+				cs.Pad = 40 + r.Intn(30)
+				if r.Chance(3, 4) {
+					cs.FsizeLimit = uint64(2300 + r.Intn(2500))
+				}
+			}
+			specs = append(specs, cs)
+		}
+		for i := 0; i < f.N(6, 40); i++ {
+			specs = append(specs, caseSpec{Mode: "wfault", Meta: true, Template: gen.Pick(r, metaTpls), Seed: r.U64(), FsizeLimit: uint64(1 + r.Intn(700))})
+		}
+		for i := 0; i < f.N(4, 24); i++ {
+			specs = append(specs, caseSpec{Mode: "wkill", Meta: true, Template: metaTpls[i%6], Seed: r.U64(), WriteKillAt: 2 + r.Intn(2)})
+		}
+		for i := 0; i < f.N(3, 20); i++ {
+			cs := randomSpec(r, "wkill")
+			cs.WriteKillAt = 2 + r.Intn(4)
+			specs = append(specs, cs)
+		}
+	}
+	ixsBin := ""
+	for _, cs := range specs {
+		if cs.Meta {
+			ixsBin = gen.BuildIndexserver("c12")
+			break
 		}
 	}
 
@@ -1346,13 +1633,10 @@ func main() {
 		wg.Add(1)
 		go func(wk int) {
 			defer wg.Done()
-			rn := &runner{root: root, self: self, tpls: tpls, worker: wk}
+			rn := &runner{root: root, self: self, tpls: tpls, worker: wk, ixsBin: ixsBin}
 			defer func() {
-				if rn.stop != nil {
-					rn.stop.Close()
-				}
-				if rn.fault != nil {
-					rn.fault.Close()
+				for _, s := range rn.sess {
+					s.Close()
 				}
 			}()
 			for idx := range jobs {
@@ -1370,15 +1654,6 @@ func main() {
 					rn.w = &sink{}
 					sinks[idx] = rn.w
 					rn.nextDir = idx + 1
-					var err error
-					if cs.Mode == "stop" && rn.stop == nil {
-						rn.stop, err = f1util.Start(f1util.Mode{StopAtMutations: true}, filepath.Join(root, fmt.Sprintf("stop%d.log", wk)), nil, self, "child")
-						must(err)
-					}
-					if cs.Mode == "fault" && rn.fault == nil {
-						rn.fault, err = f1util.Start(f1util.Mode{RenameFail: "2+3", UnlinkFail: "2+5"}, filepath.Join(root, fmt.Sprintf("fault%d.log", wk)), nil, self, "child")
-						must(err)
-					}
 					rn.run(cs)
 				}()
 			}
